@@ -114,7 +114,9 @@ CheckOutput(f, cost, c) ==
       co    == c.ctx.co
   IN IF ~Ok(g) THEN g
      ELSE IF ~co.has THEN Fail(g, "context")
-     ELSE IF ~NLt(pidx.v, NFromInt(Len(co.outs))) THEN Fail(g, "badvalue")     \* no such output
+     \* the vm version of an output is a 64-bit quantity and there is no output at an index >= the number of outputs
+     ELSE IF ~FitsUint64(pver.v) THEN Fail(g, "badvalue")
+     ELSE IF ~NLt(pidx.v, NFromInt(Len(co.outs))) THEN Fail(g, "badvalue")
      ELSE LET o == co.outs[NToInt(pidx.v) + 1] IN
           PushD(g, BoolBytes(o.amount = pam.v /\ o.asset = pas.v /\ o.ver = pver.v /\ o.code = pcode.v))
 
